@@ -5,11 +5,13 @@
    What is proved: kill() never raises, for every reachable world of every run (any program, listeners, schedule);
    what kill() does at once (between steps: KILLED on return, True, text recorded, future raising KilledError,
    closed) and when a step is in flight (a pending kill action is armed and returned), for every quiet world; a
-   terminated process is never revived (C01).  NOT proved for all schedules: that the armed action survives every
-   later request until the step yields (the implementation check covers <= 3 requests at every boundary; the
-   two known findings D8 / D3b are exactly the cases where it does not). *)
-From Coq Require Import List String Bool.
+   terminated process is never revived (C01).  Over all runs additionally: the bookkeeping is never stale (LifePtr), an
+   armed kill survives everything but the stepping task's own callback (LifeArmed), the end of a step carries it out on
+   every reachable world (LifeCarry), a kill between steps is carried out at once (LifeKill).  The open finding D3b is
+   the case in which the future is cancelled from outside. *)
+From Coq Require Import List String Bool ZArith.
 From Plumpy Require Import Val Mon PortModel Model Run LifePath LifeBook LifeSx LifeFx LifeAgree LifePtr LifeKill LifeArmed.
+From Plumpy Require LifeEsc LifeCarry.
 Import ListNotations.
 
 (* kill() requested between any two loop callbacks of any run returns a result, never an exception *)
@@ -79,6 +81,29 @@ Theorem C04_armed_kill_survives :
     exists ac, get_act w' a = Some ac /\ a_fut ac = AfPending /\ is_kill (a_kind ac) = true.
 Proof. exact armed_kill_survives. Qed.
 Print Assumptions C04_armed_kill_survives.
+
+(* ... and the end of the step carries it out.  On EVERY reachable world of every run (any program, listeners, callbacks, any
+   injected fault, any schedule that does not cancel the future from outside) on which a kill is pending, and however the
+   state's execute() comes back — with a next state that is a legal successor (LifeEsc shows that the targets computed by steps
+   are), with an interruption, or with an exception — the tail of step() returns normally (up to the fuel of the model) and
+   leaves the process TERMINATED: KILLED by the action, or EXCEPTED when the step or the transition failed.
+   With C04_armed_kill_survives and C06_suspended_task_is_woken: a kill requested during a step is not lost. *)
+Theorem C04_armed_kill_is_carried_out :
+  forall c es w a x,
+    run c es = Some w -> ~ In ECancelFuture es -> killing w = Some a ->
+    (forall next, x = XoNext next -> LifeEsc.legal w next) ->
+    wp (finish_step x) (fun r w' => LifeEsc.okf r /\ is_terminated w' = true) w.
+Proof. exact LifeCarry.armed_kill_carried_out_run. Qed.
+Print Assumptions C04_armed_kill_is_carried_out.
+
+(* the hypotheses are met: a step that calls kill() on itself and then yields leaves a reachable world with the kill armed; when
+   the step ends the process is KILLED with the text *)
+Example C04_armed_kill_nonvacuous :
+  let ns := PNs (mk_nattrs true None DNone None true true None) PNil in
+  let c := mk_config [("run"%string, mk_script [ACtl (CKill (Some "k"%string)); AYield] (RValue (VInt 5%Z)))] [] [] None ns in
+  option_map (fun w => (killing w, cur_label w, stepping w)) (run c [ETick]) = Some (Some 0, Some LRunning, true)
+  /\ option_map (fun w => (st w, pfut w)) (run c [ETick; EDrain 10]) = Some (Some (SKilled (Some (Some "k"%string))), PfExn (EKilled "k")).
+Proof. vm_compute. split; reflexivity. Qed.
 
 (* a kill() made between two steps of ANY reachable live process (any program, listener scripts, callbacks, any schedule
    before it; hooks that do not raise) is carried out at once: it answers True, the process is KILLED with the kill text, its
